@@ -15,7 +15,7 @@ package traverse
 //@ param typs: len=2
 //@ emits: decls
 //@ serves: traverse len=2 typs=typs
-//@ o-sig: (f func($param0(typs[0])) ($result0(typs[0]), error), list []$param0(typs[0])) (r []$result0(typs[0]), rerr error)
+//@ o-sig: (f $typs[0], list []$param0(typs[0])) (r []$result0(typs[0]), rerr error)
 //@ o-requires: f != nil
 //@ o-ensures: [all-succeed] (forall j int :: 0 <= j && j < len(list) ==> result(1, f, list[j]) == nil) ==> rerr == nil && len(r) == len(list) && forall j int :: 0 <= j && j < len(list) ==> r[j] == result(0, f, list[j])
 //@ o-ensures: [first-failure] rerr != nil ==> r == nil && traceLen() >= 1 && rerr == result(1, f, list[traceLen() - 1]) && forall j int :: 0 <= j && j < traceLen() - 1 ==> result(1, f, list[j]) == nil
